@@ -247,6 +247,8 @@ def _check(cdef, fn, kind, owner, inputs, chain):
 
 
 # ---- random inputs from shapes (bounded stand-in) ---------------------------------
+BUILDERS = {}      # class -> generator(rng) of a decodable object description
+
 INTERESTING_INTS = [0, 1, 2, 3, 15, 16, 17, 0x4b, 0x4c, 0x4d, 0x7f, 0x80, 0xfc, 0xfd, 0xfe, 0xff, 0x100,
                     0xffff, 0x10000, 0x7fffff, 0x800000, 0xffffff, 0x1000000, 2**31 - 1, 2**31, 2**32 - 1,
                     2**32, 2**63 - 1, 2**63, 2**64 - 1, 2**255, 2**256 - 1]
@@ -308,6 +310,14 @@ def rand_value(rng, sh, depth=0):
         return {'__stream__': [rng.getrandbits(8) for _ in range(n)], 'pos': rng.randint(0, n)}
     if k == 'none':
         return None
+    if k == 'obj':
+        cls = kw['cls']
+        if not isinstance(cls, type):
+            cls = rng.choice(cls.kw['values'])
+        if cls in BUILDERS:
+            return BUILDERS[cls](rng)
+    if k == 'dict':
+        return {'__dict__': {fn: rand_value(rng, fs, depth + 1) for fn, fs in kw['fields'].items()}}
     raise ValueError('no generator for shape %r' % (sh,))
 
 
